@@ -101,7 +101,7 @@ func stateOf(cfg *nfpm.Config) (string, int) {
 
 func c11Configs(env *engine.Env) []fixture.Doc {
 	docs := sharingConfigs(env)
-	if env.Thorough() {
+	{
 		t := tree(env)
 		for _, e := range c01Templates() {
 			docs = append(docs, Setting{Name: "default"}.doc([]model.Entry{e, {Src: "etc/app.conf", Dst: "/etc/zz.conf", HasInfo: true, Owner: "app"}}, t.Root))
